@@ -6,6 +6,7 @@ mod abacus;
 mod codec;
 mod dl;
 mod gen;
+mod history;
 mod kit;
 mod model;
 mod props;
